@@ -6,7 +6,8 @@
    coq/RansacModel.v and coq/IcpModel.v, which are tied to the code by the correspondence run):
      iterations_monotone, iterations_formula, estimate_logic, inliers_are_3sigma_filter,
      best_consensus_invariant, success_error_below_sigma, outliers_no_influence, one_to_one_filter,
-     icp_returns_true_iff_break, icp_best_is_min_rmse.
+     icp_returns_true_iff_break, icp_best_is_min_rmse,
+     zero_displacement_estimate_identity, zero_displacement_icp_identity ("with zero displacement it returns the identity").
 
    C06_convergence_partial — what NO theorem here covers:
      * that FindRigidTransformationByICP::find converges to within 0.015 (Frobenius) of the true motion for every
@@ -22,6 +23,7 @@
 From Coq Require Import Reals ZArith List Bool Lra Lia Sorted Permutation.
 From Flocq Require Import Core.Raux.
 From Romea Require Import Num NumR RansacModel IcpModel RansacProofs EstimateProofs RigidProofs IcpProofs RansacProbability.
+From Romea Require Import LinAlgBModel LinAlgBProofs LsModel LsProofs LsHistoryProofs P2pModel P2pProofs ZeroDispProofs.
 From Romea.gen Require Import RepoConstants.
 Import ListNotations.
 
@@ -319,6 +321,105 @@ Proof.
   rewrite E. cbn [nltb ROps].
   replace (Rltb 0 (1 / 1000)) with true by (symmetry; apply Rltb_true; lra).
   eexists. split; [reflexivity|]. split; reflexivity.
+Qed.
+
+(* ------------------------------------------------------------------------------------------------ zero displacement *)
+(* "with zero displacement it returns the identity" — the point-to-plane estimator (P2pModel.v on LsModel.v, the models
+   of C05 / C07), over the reals, for ANY LDLT / SVD oracle (no contract is needed: J^T Y = 0 makes the answer Bc whatever
+   matrix the oracle returns), for both SVD thresholds ([svd_fixed]), 2D and 3D, Cartesian and homogeneous points
+   ([ps] = number of stored coordinates), from any state of the estimator object the code can configure
+   ([p2p_configured]: the constructor, any setPreconditioner, any earlier find).
+   If every correspondence pairs a target point with an identical source point (any normals; any subset, order or
+   multiplicity of correspondences) then estimate_ returns EXACTLY the identity matrix — and it does return. *)
+Theorem C06_zero_displacement_estimate_identity :
+  forall inverse_of svd_of (fill : R) (svd_fixed : bool) d ps,
+  (d = 2 \/ d = 3)%nat ->
+  (* estimate_ on the triples (source, target, normal) *)
+  (forall triples st, p2p_configured d st -> (1 <= length triples)%nat -> zero_disp triples ->
+     exists st2, p2p_estimate ROps inverse_of svd_of fill svd_fixed d ps triples st = Some (st2, midentity ROps (S d)) /\
+                 p2p_configured d st2) /\
+  (* find(source, target, normals, correspondences) *)
+  (forall src tgt nrm corr st tr, p2p_configured d st -> (1 <= length corr)%nat -> corr_zero_disp src tgt corr ->
+     triples_of_corr src tgt nrm corr = Some tr ->
+     exists st2, p2p_find_corr ROps inverse_of svd_of fill svd_fixed d ps src tgt nrm corr st = Some (st2, midentity ROps (S d)) /\
+                 p2p_configured d st2) /\
+  (* find(points, points, normals) *)
+  (forall pts nrm st, p2p_configured d st -> (1 <= length pts)%nat -> (length pts <= length nrm)%nat ->
+     exists st2, p2p_find_aligned ROps inverse_of svd_of fill svd_fixed d ps pts pts nrm st = Some (st2, midentity ROps (S d)) /\
+                 p2p_configured d st2).
+Proof.
+  intros inv svd fill fx d ps Hd. split; [|split].
+  - intros. now apply zero_disp_estimate_identity.
+  - intros. now apply (zero_disp_find_corr_identity inv svd fill fx d ps src tgt nrm corr st tr).
+  - intros. now apply zero_disp_find_aligned_identity.
+Qed.
+Print Assumptions C06_zero_displacement_estimate_identity.
+
+(* every estimator path of the solver on the loaded zero-displacement problem (Cholesky, repaired SVD, original SVD)
+   returns the parameter vector 0; the un-preconditioned solution inv * J^T Y is 0 for every matrix inv; and under the
+   right-inverse contract of C07 the normal equations J^T J z = 0 have no other solution *)
+Theorem C06_zero_displacement_all_solver_paths :
+  forall inverse_of svd_of (fill : R) (svd_fixed : bool) d ps triples st st1,
+  (d = 2 \/ d = 3)%nat -> p2p_configured d st -> (1 <= length triples)%nat -> zero_disp triples ->
+  p2p_load ROps inverse_of svd_of fill svd_fixed d ps triples st = Some st1 ->
+  (exists st2 x, ls_estimate_chol ROps inverse_of st1 = Some (st2, x) /\ forall i, (i < p2p_k d)%nat -> vget ROps x i = 0%R) /\
+  (exists st2 x, ls_estimate_svd ROps svd_of st1 = Some (st2, x) /\ forall i, (i < p2p_k d)%nat -> vget ROps x i = 0%R) /\
+  (exists st2 x, ls_estimate_svd_abs ROps svd_of st1 = Some (st2, x) /\ forall i, (i < p2p_k d)%nat -> vget ROps x i = 0%R) /\
+  (forall inv i, ls_z st1 inv i = 0%R) /\
+  (forall inv z, inv_contract (ls_k st1) (ls_JtJ ROps st1) inv ->
+     (forall i, (i < p2p_k d)%nat -> grad (ls_n st1) (p2p_k d) (Jf st1) (Yf st1) z i = 0%R) ->
+     forall i, (i < p2p_k d)%nat -> z i = 0%R).
+Proof. exact zero_disp_all_paths. Qed.
+Print Assumptions C06_zero_displacement_all_solver_paths.
+
+(* the configured states: the constructor's, and closed under setPreconditioner with any scale (the theorem above closes
+   them under estimate_ / find); identical points stay identical under the preconditioned overloads *)
+Theorem C06_zero_displacement_configurations : forall d, (d = 2 \/ d = 3)%nat ->
+  p2p_configured d (p2p_new ROps d) /\
+  (forall scale st, p2p_configured d st -> p2p_configured d (p2p_set_preconditioner ROps d scale st)) /\
+  (forall c src tgt corr,
+     Forall (fun p : nat * nat => (fst p < length src)%nat /\ (snd p < length tgt)%nat) corr ->
+     corr_zero_disp src tgt corr -> corr_zero_disp (p2p_precondition ROps c src) (p2p_precondition ROps c tgt) corr).
+Proof.
+  intros d Hd. split; [now apply p2p_configured_new|]. split.
+  - intros. now apply p2p_configured_set_preconditioner.
+  - exact corr_zero_disp_precondition.
+Qed.
+Print Assumptions C06_zero_displacement_configurations.
+
+(* non-vacuity: a 2D zero-displacement problem with two correspondences of one point pair and one of another *)
+Example C06_zero_displacement_example :
+  corr_zero_disp [[1; 2]; [3; 5]]%R [[3; 5]; [1; 2]]%R [(0, 1); (1, 0); (0, 1)]%nat /\
+  triples_of_corr [[1; 2]; [3; 5]]%R [[3; 5]; [1; 2]]%R [[0; 1]; [1; 0]]%R [(0, 1); (1, 0); (0, 1)]%nat <> None.
+Proof. split; [repeat constructor | discriminate]. Qed.
+
+(* The ICP loop model: if the transformation of every iteration in which RANSAC succeeds is the identity (which the
+   theorem above gives for the refit on zero-displacement matches: [concat (midentity (d+1))] are the entries), then
+   find() reports success iff RANSAC succeeds in one of the iterations it may run; it stops AT the first such iteration
+   — the first one whose step-difference test is evaluated — and the transformation it hands out is the identity.
+   For every positive epsilon (the source's 0.001 included) and every sequence of outcomes. *)
+Theorem C06_zero_displacement_icp_identity : forall (eps : R) maxit id (os : list (icp_outcome R)) r,
+  (0 < eps)%R -> (0 <= maxit)%Z ->
+  (forall o, In o os -> io_ok o = true -> io_M o = id) ->
+  icp_run ROps eps maxit id os = Some r ->
+  (ir_found r = true <-> exists o, In o (firstn (Z.to_nat maxit) os) /\ io_ok o = true) /\
+  (ir_found r = true ->
+     exists pre o post, os = pre ++ o :: post /\ ir_n r = Z.of_nat (length pre) /\ (ir_n r < maxit)%Z /\
+       Forall (fun o' => io_ok o' = false) pre /\ io_ok o = true /\
+       icp_returned_iteration r = Some (ir_n r) /\ nth_error os (Z.to_nat (ir_n r)) = Some o /\ io_M o = id) /\
+  (forall o rest, os = o :: rest -> io_ok o = true -> (1 <= maxit)%Z -> ir_found r = true /\ ir_n r = 0%Z).
+Proof. exact zero_disp_icp_identity. Qed.
+Print Assumptions C06_zero_displacement_icp_identity.
+
+(* the two statements meet: the row-major entries of the estimator's identity are the loop model's identity, and the
+   source's epsilon is positive *)
+Example C06_zero_displacement_glue :
+  (forall n, concat (midentity ROps n) = identity_entries ROps n) /\ (0 < icp_epsilon ROps)%R /\ (1 <= icp_maxit)%Z.
+Proof.
+  split; [exact concat_midentity|]. split.
+  - unfold icp_epsilon, icp_transformation_epsilon_m, icp_transformation_epsilon_e. cbn [nofDec ROps].
+    apply Rmult_lt_0_compat; [apply IZR_lt; reflexivity | apply powerRZ_lt; lra].
+  - vm_compute. discriminate.
 Qed.
 
 (* obligations on the constants regenerated from the sources that the statements above rely on *)
